@@ -198,36 +198,7 @@ func checkC02(c *Ctx) {
 	}
 
 	// ---- R02c
-	for _, name := range []string{"bindPathParams", "bindQueryParams"} {
-		f := ep.Funcs[name]
-		if f == nil {
-			r.Unres("R02c", name, "", "emitted function not found")
-			continue
-		}
-		n := 0
-		ast.Inspect(f.Body, func(nd ast.Node) bool {
-			cl, ok := nd.(*ast.CompositeLit)
-			if !ok {
-				return true
-			}
-			tv, ok := ep.Info.Types[cl]
-			if !ok || !typeIsNamed(tv.Type, "sebuf/http", "FieldViolation") {
-				return true
-			}
-			n++
-			fieldExpr := ""
-			for _, el := range cl.Elts {
-				if kv, ok := el.(*ast.KeyValueExpr); ok {
-					if id, ok := kv.Key.(*ast.Ident); ok && id.Name == "Field" {
-						fieldExpr = types.ExprString(kv.Value)
-					}
-				}
-			}
-			r.Check(fieldExpr == "param.FieldName", "R02c", fmt.Sprintf("%s violation #%d names param.FieldName", name, n), ep.GenPos(cl.Pos()),
-				"a URL-binding violation does not name the bound field (Field: "+fieldExpr+")")
-			return true
-		})
-	}
+	binderViolationFields(c, ep, "R02c")
 
 	// ---- R02f conversion table
 	checkConversionTable(c, ep, "R02f")
@@ -530,4 +501,41 @@ func c02Presence(c *Ctx, ep *EmittedPkg) {
 		return true
 	})
 	r.Check(n >= 1, "R02g", "bindQueryParams has an absence test", ep.GenPos(fd.Pos()), "no skip condition found in the parameter loop")
+}
+
+// binderViolationFields: every FieldViolation built in the URL binders names the
+// bound field (param.FieldName), in every error arm.
+func binderViolationFields(c *Ctx, ep *EmittedPkg, rid string) {
+	r := c.R
+	for _, name := range []string{"bindPathParams", "bindQueryParams"} {
+		f := ep.Funcs[name]
+		if f == nil {
+			r.Unres(rid, name, "", "emitted function not found")
+			continue
+		}
+		n := 0
+		ast.Inspect(f.Body, func(nd ast.Node) bool {
+			cl, ok := nd.(*ast.CompositeLit)
+			if !ok {
+				return true
+			}
+			tv, ok := ep.Info.Types[cl]
+			if !ok || !typeIsNamed(tv.Type, "sebuf/http", "FieldViolation") {
+				return true
+			}
+			n++
+			fieldExpr := ""
+			for _, el := range cl.Elts {
+				if kv, ok := el.(*ast.KeyValueExpr); ok {
+					if id, ok := kv.Key.(*ast.Ident); ok && id.Name == "Field" {
+						fieldExpr = types.ExprString(kv.Value)
+					}
+				}
+			}
+			r.Check(fieldExpr == "param.FieldName", rid, fmt.Sprintf("%s violation #%d names param.FieldName", name, n), ep.GenPos(cl.Pos()),
+				"a URL-binding violation does not name the bound field (Field: "+fieldExpr+")")
+			return true
+		})
+	}
+
 }
